@@ -68,6 +68,28 @@ def correspond(ctx):
     ul = [countlib.unit_line("EBIG", c) for c in countlib.ebig_units(rng, 30 * scale)] + [countlib.unit_line("EMED", c) for c in countlib.emed_units(rng, 30 * scale)]
     for shard in ps.shard(ul, 4):
         batches.append(("EratBig / EratMedium units", "kernel_probe", "\n".join(l for _, l in shard) + "\n", len(shard)))
+    # primesieve's own containers at unit level: Vector growth and MemoryPool bookkeeping histories (the models of C17) with
+    # ENABLE_ASSERT and the sanitizers: placement new / raw pointer arithmetic / bucket alignment are only visible here
+    cl2 = []
+    for k in range(60 * scale):
+        ops, size = [], 0
+        for _ in range(rng.between(1, 40)):
+            j = rng.below(10)
+            if j < 4: ops.append("p"); size += 1
+            elif j < 6: ops.append("r%d" % rng.below(3 * size + 8))
+            elif j < 8: n = rng.below(2 * size + 6); ops.append("z%d" % n); size = n
+            elif j < 9: n = rng.below(70); ops.append("a%d" % n); size += n
+            else: ops.append("c"); size = 0
+        cl2.append("VEC " + " ".join(ops))
+    for k in range(6 * scale):
+        ops, held = [], 0
+        while len(ops) < 150 + 250 * k:
+            run = rng.between(1, 120)
+            if rng.chance(3, 5) or held == 0: ops += ["a"] * run; held += run
+            else: run = min(run, held); ops += ["f"] * run; held -= run
+        cl2.append("POOL " + " ".join(ops))
+    for shard in ps.shard(cl2, 2):
+        batches.append(("Vector / MemoryPool unit histories", "kernel_probe", "\n".join(l for _, l in shard) + "\n", len(shard)))
     # calculator
     ce = [("u64" if k % 2 else "int", C16.gen_malformed(rng) if k % 5 == 4 else C16.gen_expr(rng, "u64" if k % 2 else "int")) for k in range(800 * scale)]
     ce = [(t, e) for t, e in ce if "\n" not in e]
